@@ -52,9 +52,10 @@ def _py_args(sem, it1, fr1, entry, sizes):
         intent = (a.type.intent or '').lower()
         if isinstance(obj, Arr):
             elems = {}
+            fixed = sz.get(n) if isinstance(sz.get(n), (list, tuple)) else None
             for k, idx in enumerate(obj.index_list()):
                 zero = tuple(i - lo for i, (lo, _) in zip(idx, obj.bounds))
-                elems[zero] = it1.inputs[f'in_{n}_p{k + 1}']
+                elems[zero] = sem.int_lit(fixed[k]) if fixed is not None else it1.inputs[f'in_{n}_p{k + 1}']
             args[n] = PyArr(n, [hi - lo + 1 for lo, hi in obj.bounds], elems, obj.sort)
             shadow[n] = args[n]
         elif isinstance(obj, Cell):
@@ -249,7 +250,10 @@ def replay_py(src, entry, sizes, model, pysrc, fname, timeout=120, rtol=1e-6):
         intent = (a.type.intent or '').lower()
         obj = fr.vars[n]
         if isinstance(obj, Arr):
-            vals = [_val(model.get(f'in_{n}_p{k + 1}', 1 if kind != 'l' else False), kind) for k in range(len(obj.index_list()))]
+            if isinstance(sz.get(n), (list, tuple)):
+                vals = list(sz[n])
+            else:
+                vals = [_val(model.get(f'in_{n}_p{k + 1}', 1 if kind != 'l' else False), kind) for k in range(len(obj.index_list()))]
             spec['args'].append({'name': n, 'kind': kind, 'shape': [hi - lo + 1 for lo, hi in obj.bounds], 'value': vals})
         else:
             v = sz.get(n, model.get(f'in_{n}', 1 if kind != 'l' else False))
